@@ -201,6 +201,8 @@ let refine ifs iters (f : fail) (tag : string) : string =
   | F05_alive (_, _, ty, inst) ->
     if ptr_variants dl ty inst then "alive:ptr-variant" else if srv_targets dl inst then "alive:srv-targets" else tag
   | F04_complete (_, _, _, inst, fresh) -> if fresh && srv_targets dl inst then "complete:srv-targets" else tag
+  (* the class excluded by C04_resolved_only_after_found_partial (Model/BrowserKnown.v) *)
+  | F04_order _ -> if known_browse_expiring ifs iters then "order:browse-expiring-ptr" else tag
   | _ -> tag
 
 let verdict ifs iters (fs : fail list) : string =
